@@ -92,6 +92,10 @@ func (t *T) IsUnknownType() bool {
 }
 
 func (t *T) IsClassType() bool {
+	if t == nil {
+		return false
+	}
+
 	return t.tType == CLASS
 }
 
@@ -226,7 +230,7 @@ func (t *T) IsTransformTargetIdentifier() bool {
 }
 
 func (t *T) IsTopLevelFunctionIdentifier(frame string, class string) bool {
-	if t.tType != UNKNOWN {
+	if t == nil || t.tType != UNKNOWN {
 		return false
 	}
 
@@ -257,6 +261,10 @@ func (t *T) IsCloseParentheses() bool {
 }
 
 func (t *T) IsImmediate() bool {
+	if t == nil {
+		return false
+	}
+
 	return t.tType != UNKNOWN
 }
 
